@@ -36,6 +36,7 @@ type Profile struct {
 	LocationQuery  bool `json:"locationQuery,omitempty"`  // upload Location carries a query of its own
 	LocationAbs    bool `json:"locationAbs,omitempty"`    // upload Location is an absolute URL
 	EmptyLastPage  bool `json:"emptyLastPage,omitempty"`  // listings end with a Link to an empty page
+	ChunkedLists   bool `json:"chunkedLists,omitempty"`   // listing documents are sent without Content-Length
 }
 
 // Manifest is a stored manifest.
@@ -66,6 +67,9 @@ type ReqRecord struct {
 	// BodyRead counts the bytes the client read from the response body.
 	BodyRead *int64
 	RespLen  int64
+	// BodyLen is the real length of the response document (also when it is sent
+	// without Content-Length).
+	BodyLen int64
 }
 
 // Registry is one registry host.
@@ -159,6 +163,10 @@ func (c *countingBody) Read(p []byte) (int, error) {
 	c.mu.Lock()
 	*c.n += int64(n)
 	c.mu.Unlock()
+	// like net/http bodies with a known length: the last bytes come together with EOF
+	if br, ok := c.r.(*bytes.Reader); ok && err == nil && n > 0 && br.Len() == 0 {
+		err = io.EOF
+	}
 	return n, err
 }
 func (c *countingBody) Close() error { return nil }
@@ -242,6 +250,11 @@ func (r *Registry) RoundTrip(req *http.Request) (*http.Response, error) {
 	}
 	rec.Status = resp.StatusCode
 	rec.RespLen = resp.ContentLength
+	if cb, ok := resp.Body.(*countingBody); ok {
+		if br, ok := cb.r.(*bytes.Reader); ok {
+			rec.BodyLen = int64(br.Len())
+		}
+	}
 	return resp, nil
 }
 
@@ -675,7 +688,7 @@ func (r *Registry) tags(req *http.Request, rec *ReqRecord, name string) *http.Re
 	if more || (r.P.EmptyLastPage && len(out) > 0) {
 		h.Set("Link", r.link(req, next))
 	}
-	return Response(req, 200, h, b, false, rec.BodyRead)
+	return Response(req, 200, h, b, r.P.ChunkedLists, rec.BodyRead)
 }
 
 func (r *Registry) catalog(req *http.Request, rec *ReqRecord) *http.Response {
@@ -696,7 +709,7 @@ func (r *Registry) catalog(req *http.Request, rec *ReqRecord) *http.Response {
 	if more || (r.P.EmptyLastPage && len(out) > 0) {
 		h.Set("Link", r.link(req, next))
 	}
-	return Response(req, 200, h, b, false, rec.BodyRead)
+	return Response(req, 200, h, b, r.P.ChunkedLists, rec.BodyRead)
 }
 
 // ReferrersOf computes the referrer descriptors of subject in repo name (the
@@ -767,7 +780,7 @@ func (r *Registry) referrers(req *http.Request, rec *ReqRecord, name, dg string)
 	if more || (r.P.EmptyLastPage && len(out) > 0) {
 		h.Set("Link", r.link(req, next))
 	}
-	return Response(req, 200, h, b, false, rec.BodyRead)
+	return Response(req, 200, h, b, r.P.ChunkedLists, rec.BodyRead)
 }
 
 // Net routes requests to registries (and other handlers) by host.
